@@ -34,6 +34,13 @@ func parseTextDescription(data []byte) (TextDescription, error) {
 		return desc, err
 	}
 
+	if asciiCount == 0 {
+		return desc, nil
+	}
+	if int64(asciiCount) > int64(reader.Len()) {
+		return desc, fmt.Errorf("ASCII description length %d exceeds tag data length", asciiCount)
+	}
+
 	asciiBytes := make([]byte, asciiCount-1)
 	for i := 0; i < len(asciiBytes); i++ {
 		asciiBytes[i], err = reader.ReadByte()
